@@ -215,7 +215,9 @@ def apply_op(w, op):
             live = f[4] in ref.live
             try:
                 db.remove_remote(mk_nameid(f))
-            except (KeyError, ValueError):
+            except NameError:
+                raise
+            except Exception:         # which exception an unknown identifier gets is not specified
                 if live:
                     bad.append('remove_remote-of-live-identifier-raised')
             else:
@@ -231,7 +233,9 @@ def apply_op(w, op):
                     db.remove_remote(mk_nameid(pf))
                 else:
                     r = db.handle_manage_name_id_request(mk_nameid(pf), new_id=NewID(text='sp-chosen'))
-            except (KeyError, ValueError, AttributeError, TypeError):
+            except NameError:
+                raise
+            except Exception:
                 pass
             else:
                 if k == 'remove_remote_partial':
@@ -250,7 +254,9 @@ def apply_op(w, op):
                     r = db.handle_manage_name_id_request(n, new_id=NewID(text='sp-chosen'))
                 else:
                     r = db.handle_manage_name_id_request(n, terminate='yes')
-            except (KeyError, ValueError, AttributeError, TypeError):
+            except NameError:
+                raise
+            except Exception:
                 if live:
                     bad.append('manage-of-live-identifier-raised')
             else:
@@ -284,7 +290,9 @@ def apply_op(w, op):
                         bad.append('mapping-refused-although-identifier-exists')
                     if allow != 'false':
                         bad.append('mapping-refused-although-create-allowed')
-            except (KeyError, AttributeError):
+            except NameError:
+                raise
+            except Exception:
                 if live:
                     bad.append('mapping-of-live-identifier-raised')
             else:
@@ -406,7 +414,12 @@ def removal_eval(seq):
             elif op[0] == 'transient':
                 mine.append(db.transient_nameid('u1', 'spA', ''))
             elif op[0] == 'remove_remote':
-                db.remove_remote(mk_nameid((None, 'spA', PERSISTENT, None, 'ext-X')))
+                try:
+                    db.remove_remote(mk_nameid((None, 'spA', PERSISTENT, None, 'ext-X')))
+                except NameError:
+                    raise
+                except Exception:
+                    pass      # not stored (any more): which exception says so is not specified
             else:
                 db.remove_local('u1')
                 why = None
